@@ -118,7 +118,14 @@ func validateAll(rep *core.Report, outs []*outcome) {
 			defer wg.Done()
 			batch := groups[k]
 			c := cfgT{Cand: k.cand, Local: k.local, TTL: k.ttl}
+			nrej := 0
 			for len(batch) > 0 {
+				if nrej >= 6 {
+					mu.Lock()
+					rep.Note("trace validation of batch %s stopped after %d rejected runs; %d runs not validated", c, nrej, len(batch))
+					mu.Unlock()
+					return
+				}
 				var log []event
 				for i, o := range batch {
 					for _, e := range o.log {
@@ -143,6 +150,7 @@ func validateAll(rep *core.Report, outs []*outcome) {
 				mu.Lock()
 				accepted += last
 				rejected++
+				nrej++
 				p := saveLog(fmt.Sprintf("rejected-%s-%d-%d", rep.Args.Tier, rep.Args.Seed, rejected), bad.log)
 				if len(bad.fails) == 0 {
 					rep.Nonconf("LeaseTrace.tla rejects the run of script %s (no monitor failed); spec->impl differences: %v; trace: %s", bad.sc.key(), bad.mism, p)
@@ -184,6 +192,12 @@ func selfTest(rep *core.Report, outs []*outcome) {
 		}
 	}
 	if pick == nil {
+		for _, o := range outs {
+			if len(o.fails) > 0 {
+				rep.Note("self-test skipped: every candidate run has monitor failures")
+				return
+			}
+		}
 		core.Infra("self-test: no suitable recorded run")
 	}
 	if ok, res := validate(pick.sc.Cfg, pick.log); !ok {
